@@ -134,7 +134,7 @@ fn push_call<'a>(acc: &str, e: &'a syn::Expr) -> Option<&'a syn::Expr> {
 
 /// the pushes of the body of `if let Some(x) = E { .. }` / of the `Some(x)` arm of a `match E`
 fn cond_pushes(file: &str, item: &str, env: &Env, acc: &str, binder: &str, scrut_e: &syn::Expr, body: &[syn::Stmt]) -> R<Vec<Push>> {
-    let scrut = canon(strip_ref(&env.resolve(scrut_e)));
+    let scrut = canon(text_view(&env.resolve(scrut_e)));
     let mut inner = env.with_rename(binder, "it");
     let mut out = Vec::new();
     for s in body {
@@ -276,7 +276,7 @@ fn vec_expr(file: &str, item: &str, env: &Env, e: &syn::Expr) -> R<Option<Vec<Pu
             }
             Ok(None)
         };
-        let scrut = canon(strip_ref(&env.resolve(scrut_e)));
+        let scrut = canon(text_view(&env.resolve(scrut_e)));
         let with = match tail_of(&some_body, &env.with_rename(&binder, "it"))? {
             Some(v) => v,
             None => return Ok(None),
@@ -361,6 +361,7 @@ fn prepare(file: &str, src: &syn::File, owner: &str, f: &syn::ImplItemFn, ep_par
         }
     }
     let tail = match &f.block.stmts[n - 1] {
+        syn::Stmt::Expr(syn::Expr::Return(r), _) if r.expr.is_some() => &**r.expr.as_ref().unwrap(),
         syn::Stmt::Expr(e, None) => e,
         _ => return fail(file, item, "a tail expression `endpoint_request(..)[.map_err(..)]`"),
     };
